@@ -78,7 +78,7 @@ Qed.
 
 Theorem good_unaligned_bytes value : bytes_ok value -> good (fun s => add_unaligned_bytes s value).
 Proof.
-  intros Hv s s' HI Hok H. pose proof H as H0. unfold add_unaligned_bytes in H0. apply unaligned_loop_some in H0.
+  intros Hv s s' HI Hok H. pose proof H as H0. apply add_unaligned_bytes_some in H0. apply unaligned_loop_some in H0.
   destruct (add_unaligned_bytes_appends s value HI Hok Hv) as (s'' & E & A); [destruct H0; auto|].
   rewrite E in H. injection H as <-. exact (appended_is_good _ _ _ _ A).
 Qed.
@@ -88,7 +88,7 @@ Proof.
   intros s s' HI Hok H. pose proof H as H0. unfold add_unaligned_unsigned, unsigned_to_bytes in H0.
   destruct (N.ltb_spec bits 1) as [|Hb]; [discriminate|].
   destruct (add_unaligned_bytes s _) as [s1|] eqn:E; [|discriminate].
-  unfold add_unaligned_bytes in E. apply unaligned_loop_some in E. rewrite to_bytes_loop_le in E.
+  apply add_unaligned_bytes_some in E. apply unaligned_loop_some in E. rewrite to_bytes_loop_le in E.
   assert (Hl : blen (le_bytes (N.to_nat ((bits + 7) / 8)) (N.land value (2 ^ bits - 1))) = (bits + 7) / 8)
     by (unfold blen; rewrite le_bytes_length; lia).
   assert (Hcap : s_off s / 8 + (bits + 7) / 8 < blen (s_buf s)).
@@ -135,13 +135,13 @@ Qed.
 
 Lemma frame_u16 s x s' : add_aligned_u16 s x = Some s' -> frame s s' 16.
 Proof.
-  unfold add_aligned_u16. destruct (add_aligned_u8 s _) as [s1|] eqn:E1; [|discriminate]. cbn [bind]. intros E2.
+  unfold add_aligned_u16. destruct (negb _); [discriminate|]. destruct (add_aligned_u8 s _) as [s1|] eqn:E1; [|discriminate]. cbn [bind]. intros E2.
   exact (frame_trans _ _ _ 8 8 (frame_u8 _ _ _ E1) (frame_u8 _ _ _ E2)).
 Qed.
 
 Lemma frame_u32 s x s' : add_aligned_u32 s x = Some s' -> frame s s' 32.
 Proof.
-  unfold add_aligned_u32. destruct (add_aligned_u16 s _) as [s1|] eqn:E1; [|discriminate]. cbn [bind]. intros E2.
+  unfold add_aligned_u32. destruct (negb _); [discriminate|]. destruct (add_aligned_u16 s _) as [s1|] eqn:E1; [|discriminate]. cbn [bind]. intros E2.
   exact (frame_trans _ _ _ 16 16 (frame_u16 _ _ _ E1) (frame_u16 _ _ _ E2)).
 Qed.
 
